@@ -1,5 +1,6 @@
 import ChythonModel.Py.Wire
 import ChythonModel.Model.C20Bridge
+import ChythonModel.Model.C20Conformers
 /-!
 Line-protocol driver for C20. Every request is `<op> <int> …`; `-1` = `None`; enum members travel as their position in the
 generated constructor list (`RdBondType.all` …), which is RDKit's own value order.
@@ -16,6 +17,10 @@ generated constructor list (`RdBondType.all` …), which is RDKit's own value or
   from  RMOL NBRS           from_rdkit_molecule before fix_structure/fix_stereo                           → CMOL
   fromw RMOL NBRS ENV       same with the stereo dictionaries of the new molecule given
   rt    keep CMOL           from(to(m)) with RDKit taken as the identity on the transferred fields           → CMOL
+  CONFS = k (len (n x y z)×len)×k        `_conformers`: dicts in their own order
+  RCONFS = k (is3D len (x y z)×len)×k    RDKit conformers
+  toc   N id×N (x y)×N has [CONFS]       the conformers `to_rdkit_molecule` attaches                      → RCONFS
+  fromc N RCONFS                         `xy` and `_conformers` read by `from_rdkit_molecule`             → hasxy (x y)×N has [CONFS]
 Response: `ok …` or `err <PythonExceptionName>`; `bad` for a malformed request line.
 -/
 open ChythonModel.Py ChythonModel.Model ChythonModel.Model.Stereo ChythonModel.Model.C20 ChythonModel.Gen.C20
@@ -117,6 +122,35 @@ def roundTrip (c : CMol) (keep : Bool) : Except BErr CMol := do
   let r ← toRd c keep
   fromRd r ((List.range r.atoms.length).map (rNbrs r.bonds))
 
+def pP3 : P P3 := do let x ← nextI; let y ← nextI; let z ← nextI; pure (x, y, z)
+
+def pConfs : P (List (List (Nat × P3))) := do
+  let k ← nextN
+  rep k (do let l ← nextN; rep l (do let n ← nextN; let v ← pP3; pure (n, v)))
+
+def pRConfs : P (List RConf) := do
+  let k ← nextN
+  rep k (do let f ← nextN; let l ← nextN; let ps ← rep l pP3; pure ⟨f != 0, ps⟩)
+
+def showP3 (v : P3) : String := s!"{v.1} {v.2.1} {v.2.2}"
+
+def showRConfs (cs : List RConf) : String :=
+  " ".intercalate (toString cs.length :: cs.map fun c =>
+    " ".intercalate ([if c.is3D then "1" else "0", toString c.pos.length] ++ c.pos.map showP3))
+
+def showConfs (l : List (List (Nat × P3))) : String :=
+  " ".intercalate (toString l.length :: l.map fun d =>
+    " ".intercalate (toString d.length :: d.map fun (n, v) => s!"{n} {showP3 v}"))
+
+def showFromConfs (r : Option (List (Int × Int)) × Option (List (List (Nat × P3)))) : String :=
+  let a := match r.1 with
+    | none => "0"
+    | some xy => " ".intercalate ("1" :: xy.map fun (x, y) => s!"{x} {y}")
+  let b := match r.2 with
+    | none => "0"
+    | some l => "1 " ++ showConfs l
+  a ++ " " ++ b
+
 def run (op : String) : P String := do
   match op with
   | "env" => do
@@ -137,6 +171,15 @@ def run (op : String) : P String := do
   | "rt" => do
     let keep ← nextN; let c ← pCMol
     pure (fin showCMol (roundTrip c (keep != 0)))
+  | "toc" => do
+    let n ← nextN; let ids ← rep n nextN
+    let xy ← rep n (do let x ← nextI; let y ← nextI; pure (x, y))
+    let has ← nextN
+    let confs ← if has == 0 then pure none else do let l ← pConfs; pure (some l)
+    pure (fin showRConfs (toConformers ids xy confs))
+  | "fromc" => do
+    let n ← nextN; let cs ← pRConfs
+    pure ("ok " ++ showFromConfs (fromConformers n cs))
   | _ => failure
 
 def handle (line : String) : String :=
